@@ -181,14 +181,43 @@ def main():
     sem_cases, sem_desc = [], []
     infos = []
     skipped_order_dependent = 0
-    for _ in range(700 if thorough else 150):
-        g = cp.Gen(rng, fanout=True, max_depth=3 if thorough else 2)
-        definition = g.machine()
-        if not ec.has_fanout(definition):
-            continue
-        wk = cp.Worker(rng.randrange(10 ** 6), failures=0.3)
-        data = json.loads(json.dumps(cp.INPUT))
-        sseed = rng.randrange(10 ** 9)
+    # directed: a failure that is CAUGHT (or retried) flags only the state that failed; events still queued two, three and four levels
+    # below it must be dropped all the same - under every order of deliveries (random schedules)
+    deep_runs = []
+    for depth in (2, 3, 4):
+        for delay in (1, 2, 3):         # Pass states before the Fail state: the failure is handled while the nested branch still has an event queued
+            for handled in ("catch", "retry"):
+                for leaf in (1, 2):
+                    inner = ({"StartAt": "n0", "States": {"n0": {"Type": "Pass", "End": True}}} if leaf == 1 else
+                             {"StartAt": "n0", "States": {"n0": {"Type": "Pass", "Next": "n0b"}, "n0b": {"Type": "Pass", "End": True}}})
+                    for lvl in range(depth - 1):
+                        inner = {"StartAt": "L%d" % lvl, "States": {"L%d" % lvl: {"Type": "Parallel", "Branches": [inner], "End": True}}}
+                    fb, first = {"F": {"Type": "Fail", "Error": "Boom", "Cause": "why"}}, "F"
+                    for j in range(delay):
+                        fb["D%d" % j] = {"Type": "Pass", "Next": first}
+                        first = "D%d" % j
+                    outer = {"Type": "Parallel", "Branches": [inner, {"StartAt": first, "States": fb}], "End": True}
+                    if handled == "catch":
+                        outer.pop("End"); outer["Next"] = "R"
+                        outer["Catch"] = [{"ErrorEquals": ["States.ALL"], "ResultPath": "$.caught", "Next": "R"}]
+                    else:
+                        outer["Retry"] = [{"ErrorEquals": ["States.ALL"], "IntervalSeconds": 1, "MaxAttempts": 1, "BackoffRate": 1}]
+                    definition = {"StartAt": "O", "States": {"O": outer, "R": {"Type": "Pass", "End": True}}}
+                    for k in range(6 if thorough else 2):
+                        deep_runs.append((definition, rng.randrange(10 ** 9), depth, handled))
+    for k_run in range((700 if thorough else 150) + len(deep_runs)):
+        if k_run < len(deep_runs):
+            definition, sseed, depth, handled = deep_runs[k_run]
+            wk = cp.Worker(1, failures=0.0)
+            data = {"x": 1}
+        else:
+            g = cp.Gen(rng, fanout=True, max_depth=3 if thorough else 2)
+            definition = g.machine()
+            if not ec.has_fanout(definition):
+                continue
+            wk = cp.Worker(rng.randrange(10 ** 6), failures=0.3)
+            data = json.loads(json.dumps(cp.INPUT))
+            sseed = rng.randrange(10 ** 9)
         info = eg.convert(eg.run_many(definition, [data], wk, tmpd, chooser=eg.random_chooser(random.Random(sseed))))
         info.profile, info.schedule = "c06_random", "random(seed=%d)" % sseed
         if info.status == "exception":
